@@ -1912,4 +1912,4 @@ mod tests {
 
 #[cfg(kani)]
 #[path = "/verif/harness/foyer-memory/raw.rs"]
-mod verif_kani;
+pub(crate) mod verif_kani;
